@@ -275,8 +275,12 @@ func (s *scen) newAllocInput(owner string, blobbers []int, size int64) map[strin
 
 // newAllocRoot creates allocation `tag` in a root script and records its id.
 func (s *scen) newAllocRoot(tag, owner string, blobbers []int, lock currency.Coin) chainsim.Action {
-	in := s.newAllocInput(owner, blobbers, allocSize)
-	return chainsim.Action{Name: fmt.Sprintf("new_allocation_request(%s,%s,%v,lock=%d)", tag, owner, blobbers, lock), Build: func(x *chainsim.Ctx) *world.TxnSpec {
+	return s.newAllocRootSized(tag, owner, blobbers, allocSize, lock)
+}
+
+func (s *scen) newAllocRootSized(tag, owner string, blobbers []int, size int64, lock currency.Coin) chainsim.Action {
+	in := s.newAllocInput(owner, blobbers, size)
+	return chainsim.Action{Name: fmt.Sprintf("new_allocation_request(%s,%s,%v,size=%dB,lock=%d)", tag, owner, blobbers, size, lock), Build: func(x *chainsim.Ctx) *world.TxnSpec {
 		f := s.actor(owner)
 		spec := world.TxnSpec{From: f, To: storagesc.ADDRESS, Type: transaction.TxnTypeSmartContract, Value: lock,
 			Nonce: x.Nonce(f) + 1, Data: world.SC("new_allocation_request", in), Time: x.Now}
@@ -383,6 +387,9 @@ func (s *scen) update(ref, from string, size int64, extend bool, add, remove int
 func (s *scen) commit(ref string, bi int, size int64, signer string, fee currency.Coin) chainsim.Action {
 	b := s.B[bi]
 	name := fmt.Sprintf("commit_connection(%s,%s,size=%+dMiB", ref, b.Name, size>>20)
+	if size > -(1<<20) && size < 1<<20 {
+		name = fmt.Sprintf("commit_connection(%s,%s,size=%+dB", ref, b.Name, size)
+	}
 	if signer != "" {
 		name += ",signer=" + signer
 	}
@@ -615,6 +622,19 @@ func (s *scen) rootA() []chainsim.Action {
 // rootAW: rootA + data written to b0 (600 MiB) and b1 (300 MiB).
 func (s *scen) rootAW() []chainsim.Action {
 	return append(s.rootA(), s.commit("A", 0, 600<<20, "", 0), s.commit("A", 1, 300<<20, "", 0))
+}
+
+// tinyCost is the price of allocation T: 3 blobbers x one 64 KiB chunk at 1 ZCN/GiB for one time
+// unit (610351 tokens each, truncated); T is funded with exactly this amount.
+const tinyCost = currency.Coin(3 * 610351)
+
+// rootTD ("tiny, dry"): base + allocation T of c0 on b1,b2,b3 of 128 KiB (one chunk per blobber)
+// funded at exactly its price, then three 1-byte write markers, each charged as a full chunk for
+// the rest of the duration: the write pool is left with less than the price of one more chunk,
+// so the next upload is clamped by the write pool.
+func (s *scen) rootTD() []chainsim.Action {
+	return append(s.rootBase(), s.newAllocRootSized("T", "c0", []int{1, 2, 3}, 2*chunk, tinyCost),
+		s.commit("T", 1, 1, "", 0), s.commit("T", 2, 1, "", 0), s.commit("T", 3, 1, "", 0))
 }
 
 var _ = common.Timestamp(0)
